@@ -40,6 +40,104 @@ func runC09(c *core.Ctx) {
 		c09Case(c, rng, dir, i)
 		done()
 	}
+	for i := 0; i < c.Pick(20, 100); i++ {
+		rng, ok := c.CaseRng(100000+i, "end of watch with a restricted operation set / probed at the event")
+		if !ok {
+			continue
+		}
+		dir, done := caseDir(c, 100000+i)
+		c09Ops(c, rng, dir, i)
+		done()
+	}
+}
+
+// c09Ops: (a) the watch is added with an operation filter (possibly WITHOUT Remove, so the kernel
+// reports the end of the watch with IN_IGNORED only) and its path is deleted or renamed away: the
+// watch must end all the same; (b) at the very moment the consumer receives the Remove/Rename of
+// the watched path itself, WatchList must no longer show it.
+func c09Ops(c *core.Ctx, rng *rand.Rand, dir string, idx int) {
+	s, err := twin.NewSession(dir, []int{-1, 0, 8}[rng.Intn(3)])
+	if err != nil {
+		c.Broken(err.Error())
+		return
+	}
+	defer s.Close()
+	os.Chdir(s.Base)
+	sets := []fsnotify.Op{fsnotify.Create | fsnotify.Write | fsnotify.Remove | fsnotify.Rename | fsnotify.Chmod, fsnotify.Write, fsnotify.Write | fsnotify.Chmod | fsnotify.Rename,
+		fsnotify.Create | fsnotify.Write, fsnotify.Chmod, fsnotify.Remove, fsnotify.Rename | fsnotify.Remove}
+	ops := sets[idx%len(sets)]
+	isDir := rng.Intn(3) == 0
+	if isDir {
+		os.Mkdir("x", 0o755)
+	} else {
+		os.WriteFile("x", nil, 0o644)
+	}
+	os.Mkdir("o", 0o755)
+	var stillListed []string
+	s.OnEvent = func(e twin.Ev) {
+		if e.Name == "x" && e.Op&(fsnotify.Remove|fsnotify.Rename) != 0 {
+			for _, p := range s.W.WatchList() {
+				if p == "x" {
+					stillListed = append(stillListed, e.String())
+				}
+			}
+		}
+	}
+	if err := s.W.AddWith("x", fsnotify.VerifWithOps(ops)); err != nil {
+		c.Broken("AddWith: " + err.Error())
+		return
+	}
+	s.Logf("AddWith(x, %s)", ops)
+	if rng.Intn(2) == 0 {
+		os.Chmod("x", 0o700)
+	}
+	how := rng.Intn(3)
+	switch how {
+	case 0:
+		os.Remove("x")
+		s.Logf("remove x")
+	case 1:
+		os.Rename("x", "o/y")
+		s.Logf("rename x o/y")
+	case 2:
+		os.Rename("x", "o/y")
+		os.RemoveAll("o/y")
+		s.Logf("rename x o/y; remove o/y")
+	}
+	if ok, dump := s.Barrier(); !ok {
+		c.Inconclusive("barrier watchdog: " + hangClass(dump))
+		return
+	}
+	c.Eval(1)
+	c.Count("histories", 1)
+	c.Count("restricted_op_set_histories", 1)
+	c.Distinct("ops", uint32(ops), isDir, how)
+	params := fmt.Sprintf("ops=%s dir=%v ending=%d", ops, isDir, how)
+	// a rename is only noticed by the watch when Rename was requested (IN_MOVE_SELF); then, or when
+	// the inode is gone (cases 0 and 2: IN_IGNORED at the latest), the watch must have ended
+	ended := how != 1 || ops&fsnotify.Rename != 0
+	listed := false
+	for _, p := range s.W.WatchList() {
+		if p == "x" {
+			listed = true
+		}
+	}
+	if ended && listed {
+		c.Violate("watch-not-ended", fmt.Sprintf("[%s] the watched path is gone, the stream is quiescent, and WatchList still shows it; history %v", params, s.Tail(6)), s.Tail(10))
+		return
+	}
+	if ended {
+		c.Count("watch_end_probes", 1)
+		if err := s.W.Remove("x"); !errors.Is(err, fsnotify.ErrNonExistentWatch) {
+			c.Violate("remove-after-end", fmt.Sprintf("[%s] Remove of the ended watch = %v, want ErrNonExistentWatch; history %v", params, err, s.Tail(6)), s.Tail(10))
+			return
+		}
+	}
+	if len(stillListed) > 0 {
+		c.Violate("listed-at-its-own-remove-event", fmt.Sprintf("[%s] when %v was received WatchList still showed the path", params, stillListed), s.Tail(10))
+	}
+	_, got, _ := s.Take()
+	c.Count("events_received", int64(len(got)))
 }
 
 func c09Case(c *core.Ctx, rng *rand.Rand, dir string, idx int) {
